@@ -299,6 +299,7 @@ def emit(fam):
                 t.name, ", ".join(sk), ", ".join(df)))
             live = [v for v in t.variants if not v.skip]
             t.maxlen = (1 + max([sum(f.maxlen() for f in v.fields) for v in live])) if live else 0
+            w("impl Elem for %s {}" % t.name)
         w("")
 
     # ---- harness instantiations
@@ -326,7 +327,9 @@ def emit(fam):
             if isinstance(t, S) and t.transparent:
                 w('#[cfg(feature = "c02")] #[kani::proof] #[kani::unwind(%d)] pub fn c02q_derived_%s_boxed_rt() { h_rt::<Box<%s>, %d, 2>(2) }' % (u, nm, t.name, n + 2))
                 w('#[cfg(feature = "c03")] #[kani::proof] #[kani::unwind(%d)] pub fn c03q_derived_%s_boxed_dec() { h_dec::<Box<%s>, %d>() }' % (u, nm, t.name, l))
-        if isinstance(t, S) and not t.generic and 0 < t.maxlen <= 5 and "Vec" not in "".join(f.ty for f in t.fields) and "Box" not in "".join(f.ty for f in t.fields):
+        _ftys = "".join(f.ty for f in (t.fields if isinstance(t, S) else [f for v in t.variants for f in v.fields]))
+        _skipped_variant = isinstance(t, E) and any(v.skip for v in t.variants)  # Sym may build a skipped variant: no encoding to compare
+        if not getattr(t, "generic", False) and 0 < t.maxlen <= 5 and "Vec" not in _ftys and "Box" not in _ftys and not _skipped_variant:
             # the type as an ELEMENT of a sequence / array (bulk paths are selected per element type)
             w('#[cfg(feature = "c01")] #[kani::proof] #[kani::unwind(%d)] pub fn c01%s_derived_%s_as_elem_enc() { h_enc::<Vec<%s>, %d>(2); h_enc::<[%s; 2], %d>(2) }' % (2 * u + 2, q, nm, t.name, 2 * n + 4, t.name, 2 * n + 4))
             w('#[cfg(feature = "c02")] #[kani::proof] #[kani::unwind(%d)] pub fn c02%s_derived_%s_as_elem_rt() { h_rt_cnt::<Vec<%s>, %d, 2>(2, None) }' % (2 * u + 2, q, nm, t.name, 2 * n + 6))
